@@ -803,8 +803,13 @@ func (f *pyFunc) callNative(s *scope, c *Call) pyObject {
 
 // defaultArg returns the default value for an argument, whether it's constant or not.
 func (f *pyFunc) defaultArg(s *scope, i int, arg string) pyObject {
-	if f.constants[i] != nil {
-		return f.constants[i]
+	if c := f.constants[i]; c != nil {
+		if l, ok := c.(pyList); ok && len(l) > 0 {
+			// As for list literals elsewhere, callers must not share one mutable list
+			// (an empty one is harmless, there is nothing in it to assign to).
+			return copyConstantList(l)
+		}
+		return c
 	}
 	// Deliberately does not use Assert since it doesn't get inlined here (weirdly it does
 	// in _many_ other places) and this function is pretty hot.
